@@ -41,20 +41,34 @@ pub fn scenario(c: &mut Chooser, avoid_free_capture: bool) -> Scenario {
         clash: format!("{}\n{}", defs, use_site(clash_name)),
         renamed: format!("{}\n{}", defs, use_site(fresh_name)),
     };
+    // the form through which a template binds its temporary, and the number of unrelated scopes between the
+    // user's binding and the macro use
+    let binder = ["let", "let*", "letrec", "let*2"][c.below(4)];
+    let bind = |rhs: &str, body: &str| match binder {
+        "let*2" => format!("(let* ((q0 {rhs}) ({t} q0)) {body})", rhs = rhs, t = t, body = body),
+        b => format!("({b} (({t} {rhs})) {body})", b = b, t = t, rhs = rhs, body = body),
+    };
+    let layers = c.below(3);
+    let wrap = move |x: String| match layers {
+        0 => x,
+        1 => format!("(let ((zz1 0)) {})", x),
+        _ => format!("((lambda (zz2) (let ((zz1 0)) {})) 1)", x),
+    };
+    let kind_suffix = format!("{}:{}-scopes-between", binder, layers);
     match k {
         0 => mk(
-            "template-binder-vs-user-variable:swap",
+            &format!("template-binder-vs-user-variable:swap:{}", kind_suffix),
             "",
-            format!("(define-syntax swap! (syntax-rules () ((_ a b) (let (({t} a)) (set! a b) (set! b {t})))))", t = t),
-            &|u| format!("(let (({u} 1) (other 2)) (swap! {u} other) (list {u} other))", u = u),
+            format!("(define-syntax swap! (syntax-rules () ((_ a b) {})))", bind("a", &format!("(set! a b) (set! b {})", t))),
+            &|u| format!("(let (({u} 1) (other 2)) {} (list {u} other))", wrap(format!("(swap! {u} other)", u = u)), u = u),
             t,
             &fresh,
         ),
         1 => mk(
-            "template-binder-vs-user-variable:or",
+            &format!("template-binder-vs-user-variable:or:{}", kind_suffix),
             "",
-            format!("(define-syntax my-or (syntax-rules () ((_ a b) (let (({t} a)) (if {t} {t} b)))))", t = t),
-            &|u| format!("(let (({u} 5)) (list (my-or #f {u}) (my-or 7 {u})))", u = u),
+            format!("(define-syntax my-or (syntax-rules () ((_ a b) {})))", bind("a", &format!("(if {t} {t} b)", t = t))),
+            &|u| format!("(let (({u} 5)) {})", wrap(format!("(list (my-or #f {u}) (my-or 7 {u}))", u = u)), u = u),
             t,
             &fresh,
         ),
